@@ -35,9 +35,9 @@ type ZInner struct {
 	Next   *ZInner
 }
 
-func (i ZInner) Hello() string       { return "hello-" + i.Name }
-func (i *ZInner) PtrHello() string   { return "ptrhello-" + i.Name }
-func (i ZInner) Add(n int) int        { return i.Val + n }
+func (i ZInner) Hello() string     { return "hello-" + i.Name }
+func (i *ZInner) PtrHello() string { return "ptrhello-" + i.Name }
+func (i ZInner) Add(n int) int     { return i.Val + n }
 
 // outer field declared BEFORE the embedded struct that has a field of the same name
 type ZShadowFirst struct {
@@ -89,6 +89,7 @@ type ZOuter struct {
 	MN      map[ZKey]string
 	MA      map[string]interface{}
 	MP      map[string]*ZInner
+	MK      map[interface{}]string
 	Iface   interface{}
 	SF      ZShadowFirst
 	SL      ZShadowLast
@@ -118,6 +119,7 @@ func zooRoot(variant int) interface{} {
 		M:   map[string]int{"one": 1, "zero": 0}, MI: map[int]string{1: "i-one", 2: ""}, MN: map[ZKey]string{"nk": "named-key-value"},
 		MA:    map[string]interface{}{"s": "str", "n": nil, "in": &ZInner{Val: 1, Name: "ma-in"}, "m": map[string]int{"deep": 99}},
 		MP:    map[string]*ZInner{"p": {Val: 2, Name: "mp-p"}, "nilp": nil},
+		MK:    map[interface{}]string{"ik": "interface-key"},
 		Iface: ZInner{Val: 5, Name: "iface-inner"},
 		SF:    ZShadowFirst{Title: "sf-outer-title", ZBase: ZBase{ID: 1, Title: "sf-base-title"}},
 		SL:    ZShadowLast{ZBase: ZBase{ID: 2, Title: "sl-base-title"}, Title: "sl-outer-title"},
@@ -161,9 +163,9 @@ type zStep struct {
 type zStatus int
 
 const (
-	zOK zStatus = iota
-	zNil        // absent map key: nil
-	zErr        // must be an error
+	zOK  zStatus = iota
+	zNil         // absent map key: nil
+	zErr         // must be an error
 )
 
 func zDeref(v reflect.Value) (reflect.Value, bool) {
@@ -369,6 +371,8 @@ func zOptions(v reflect.Value) (valid, invalid []zStep) {
 				valid = append(valid, zStep{Kind: "field", Name: k.String()})
 			}
 			valid = append(valid, zStep{Kind: "field", Name: "absentKey", Spell: "bracket"})
+		} else if d.Type().Key().Kind() == reflect.Interface {
+			// interface-keyed map: only probed by C17's dedicated unhashable-key form
 		} else {
 			for _, k := range keys {
 				valid = append(valid, zStep{Kind: "key", I: int(k.Int())})
